@@ -115,6 +115,14 @@ func allLints(f *Func) []LintHit {
 		out = append(out, LintHit{"consumedarg", fmt.Sprintf("%s#consumed(%s:%s)", f.Name, x.Callee, x.Arg), x.Call.Pos(),
 			fmt.Sprintf("%s reads an entry of %s and deletes it, and is called here in a loop with the same %s on every iteration: the first call finds the entry, the later ones find nothing", x.Callee, x.Map, x.Arg)})
 	}
+	for _, x := range WrongSides(f) {
+		out = append(out, LintHit{"wrongside", fmt.Sprintf("%s#side(%s)", f.Name, x.Has), x.Sel.Pos(),
+			fmt.Sprintf("a method of %s reads %s although the same struct has %s: the flag of the other side decides a matter of this side", types.ExprString(f.Decl.Recv.List[0].Type), x.Has, x.Twin)})
+	}
+	for _, x := range PositionalMismatches(f) {
+		out = append(out, LintHit{"posfield", fmt.Sprintf("%s#positional(%s→%s)", f.Name, x.Value, x.Into), x.Lit.Pos(),
+			fmt.Sprintf("the unkeyed struct literal puts %s at the position of field %s although the struct has a field of that very name elsewhere: the two values are swapped (same type, so it compiles)", x.Value, x.Into)})
+	}
 	for _, r := range RawAfterNormaliseds(f) {
 		out = append(out, LintHit{"rawname", fmt.Sprintf("%s#raw(%s→%s)", f.Name, r.Raw, r.Use), r.Call.Pos(),
 			fmt.Sprintf("the block computes the attribute name as the part of %s before the separator, then passes the raw %s to %s: for a mapped \"attr:element\" pair the lookup misses", r.Raw, r.Raw, r.Use)})
@@ -2740,4 +2748,96 @@ func sameTextNote(a, b ast.Expr) string {
 		return " (the same text, but one of its identifiers is a different variable at the two places: a declaration in between shadows it)"
 	}
 	return ""
+}
+
+// WrongSide is a method of a type named after one side of a pair (…Response…) that reads a struct field named after
+// the other side (SkipRequestBodyEncodeDecode) although the same struct has the field of its own side
+// (SkipResponseBodyEncodeDecode): the twin field was meant.
+type WrongSide struct {
+	Sel  *ast.SelectorExpr
+	Has  string
+	Twin string
+}
+
+var sidePairs = [][2]string{{"Request", "Response"}}
+
+func WrongSides(f *Func) []WrongSide {
+	if f.Decl.Recv == nil || len(f.Decl.Recv.List) == 0 {
+		return nil
+	}
+	recv := types.ExprString(f.Decl.Recv.List[0].Type)
+	info := f.Pkg.TypesInfo
+	var out []WrongSide
+	for _, pr := range sidePairs {
+		for k := 0; k < 2; k++ {
+			mine, other := pr[k], pr[1-k]
+			if !strings.Contains(recv, mine) || strings.Contains(recv, other) {
+				continue
+			}
+			ast.Inspect(f.Decl.Body, func(n ast.Node) bool {
+				se, ok := n.(*ast.SelectorExpr)
+				if !ok || !strings.Contains(se.Sel.Name, other) || strings.Contains(se.Sel.Name, mine) {
+					return true
+				}
+				sel := info.Selections[se]
+				if sel == nil || sel.Kind() != types.FieldVal {
+					return true
+				}
+				twin := strings.Replace(se.Sel.Name, other, mine, 1)
+				if o, _, _ := types.LookupFieldOrMethod(sel.Recv(), true, f.Pkg.Types, twin); o != nil {
+					if tv, ok := o.(*types.Var); ok && tv.IsField() && types.Identical(tv.Type(), sel.Obj().Type()) {
+						out = append(out, WrongSide{se, se.Sel.Name, twin})
+					}
+				}
+				return true
+			})
+		}
+	}
+	return out
+}
+
+// PositionalMismatch is an unkeyed struct literal one of whose values is `x.F` for a field name F of the literal's
+// own struct type, placed at the position of another field G: the value named F fills G (while some other position
+// fills F), which compiles whenever F and G have one type.
+type PositionalMismatch struct {
+	Lit   *ast.CompositeLit
+	Value string
+	Into  string
+}
+
+func PositionalMismatches(f *Func) []PositionalMismatch {
+	info := f.Pkg.TypesInfo
+	var out []PositionalMismatch
+	ast.Inspect(f.Decl.Body, func(n ast.Node) bool {
+		cl, ok := n.(*ast.CompositeLit)
+		if !ok || len(cl.Elts) < 2 {
+			return true
+		}
+		if _, keyed := cl.Elts[0].(*ast.KeyValueExpr); keyed {
+			return true
+		}
+		tv, ok := info.Types[cl]
+		if !ok {
+			return true
+		}
+		st, ok := tv.Type.Underlying().(*types.Struct)
+		if !ok || st.NumFields() != len(cl.Elts) {
+			return true
+		}
+		names := map[string]int{}
+		for i := 0; i < st.NumFields(); i++ {
+			names[st.Field(i).Name()] = i
+		}
+		for i, e := range cl.Elts {
+			se, ok := Unparen(e).(*ast.SelectorExpr)
+			if !ok {
+				continue
+			}
+			if j, isField := names[se.Sel.Name]; isField && j != i && types.Identical(st.Field(i).Type(), st.Field(j).Type()) {
+				out = append(out, PositionalMismatch{cl, types.ExprString(se), st.Field(i).Name()})
+			}
+		}
+		return true
+	})
+	return out
 }
